@@ -90,7 +90,7 @@ def run(tier, seed):
     for i in range(nruns):
         pname = names[i % len(names)]
         opts = {"p_pre": rng.choice([1, 0.7]), "p_sat": rng.choice([0.3, 0.6, 1]), "p_uniq": rng.choice([0, 0.1, 0.3]),
-                "pretest": rng.random() < 0.4, "penalty": rng.random() < 0.4, "max_steps": rng.choice([1, 2, 4, 8, None]) if i % 50 else 3,
+                "pretest": rng.random() < 0.4, "penalty": rng.random() < 0.4, "max_steps": rng.choice([1, 2, 4, 8, 20] if tier == "quick" else [1, 2, 4, 8, 20, None]) if i % 50 else 3,
                 "solve_initial": rng.random() < 0.25, "temp": rng.choice([5.0, 0.05]), "explicit_neighbor": rng.random() < 0.2}
         if opts["max_steps"] is None and opts["p_uniq"] == 0:
             opts["max_steps"] = 6
